@@ -11,6 +11,7 @@
 #include <ksi/crc32.h>
 #include <ksi/publicationsfile.h>
 #include "hx.h"
+#include "fault.h"
 
 static KSI_CTX *ctx;
 
@@ -22,8 +23,9 @@ int main(void) {
 		line[strcspn(line, "\n")] = 0;
 		n = hx_split(line, tok, 16);
 		if (n == 0) continue;
+		if (fault_cmd(tok, n)) { fflush(stdout); continue; }
 		if (!strcmp(tok[0], "S2D")) {
-			size_t l; unsigned char *b = hx_dec(tok[1], &l); char *str = malloc(l + 1); KSI_PublicationData *pd = NULL; int rc;
+			size_t l; unsigned char *b = hx_dec(tok[1], &l); char *str = H_MALLOC(l + 1); KSI_PublicationData *pd = NULL; int rc;
 			memcpy(str, b, l); str[l] = 0;
 			rc = KSI_PublicationData_fromBase32(ctx, str, &pd);
 			printf("S rc=%d", rc);
@@ -41,7 +43,7 @@ int main(void) {
 			printf("D rc=%d str=%s\n", rc, rc == KSI_OK ? s : "-");
 			KSI_free(s); KSI_Integer_free(t); KSI_DataHash_free(h); KSI_PublicationData_free(pd); free(b);
 		} else if (!strcmp(tok[0], "B32D")) {
-			size_t l; unsigned char *b = hx_dec(tok[1], &l); char *str = malloc(l + 1); unsigned char *d = NULL; size_t dl = 0; int rc;
+			size_t l; unsigned char *b = hx_dec(tok[1], &l); char *str = H_MALLOC(l + 1); unsigned char *d = NULL; size_t dl = 0; int rc;
 			memcpy(str, b, l); str[l] = 0;
 			rc = KSI_base32Decode(str, &d, &dl);
 			printf("B rc=%d data=", rc); if (rc == KSI_OK) hx_print(d, dl); else printf("-"); printf("\n");
